@@ -360,7 +360,9 @@ class Family:
         (AFI.ipv4, SAFI.nlri_mpls): ((4,), 0),
         (AFI.ipv4, SAFI.mup): ((4, 16), 0),
         (AFI.ipv4, SAFI.mpls_vpn): ((12,), 8),
-        (AFI.ipv4, SAFI.mcast_vpn): ((4,), 0),
+        # RFC 6515 section 2: the next hop of an MCAST-VPN route is an IPv4 (4 octets) or an IPv6 (16 octets)
+        # address of the provider network, whatever the AFI of the customer route (as for ipv6 below)
+        (AFI.ipv4, SAFI.mcast_vpn): ((4, 16), 0),
         (AFI.ipv4, SAFI.flow_ip): ((0, 4), 0),
         (AFI.ipv4, SAFI.flow_vpn): ((0, 4), 0),
         (AFI.ipv4, SAFI.rtc): ((4, 16), 0),
